@@ -12,7 +12,7 @@ import (
 
 type TypeSet struct {
 	Top   bool
-	Why   string            // for Top: what made it unknown
+	Why   string                // for Top: what made it unknown
 	Types map[string]types.Type // by type string
 	Nil   bool
 }
